@@ -171,7 +171,7 @@ static int O_errby[MAXD], O_errcause[MAXD];                  /* index of the op 
 static int O_patch[MAXD], O_shrink[MAXD];                    /* 1+index of the patch / shrink op in the history so far, 0 = none */
 static unsigned O_flags[MAXD];                               /* cumulative event flags */
 static uint32_t S0;                                          /* initial buffer size */
-enum { EV_CARRY=1, EV_RIPPLE=2, EV_EXT=4, EV_BACK=8, EV_PATCH_BUF=16, EV_PATCH_REM=32, EV_PATCH_VAL=64, EV_SHRINK_MOVED=128 };
+enum { EV_CARRY=1, EV_RIPPLE=2, EV_EXT=4, EV_BACK=8, EV_PATCH_BUF=16, EV_PATCH_REM=32, EV_PATCH_VAL=64, EV_SHRINK_MOVED=128, EV_PATCH_FF=256 };
 enum { CAUSE_WRITE=1, CAUSE_PATCH_FF=2, CAUSE_PATCH=3, CAUSE_OTHER=4 };
 
 static mc_ctr *c_states,*c_trans,*c_eval,*c_dn,*c_roundtrip,*c_err,*c_carry,*c_ripple,*c_atbudget,*c_merge,*c_patch,*c_shrink,*c_maxext,*c_overbudget_ok,*c_safety,*c_frac;
@@ -286,7 +286,7 @@ static int step(ec_enc *e,const Op *o,int i){
       if(e->storage!=S2){ setfail("shrink_size_not_applied","storage=%u after shrink(%u) | %s",e->storage,S2,seqstr(i+1)); return -1; }
       if(eo0&&S2!=S) fl|=EV_SHRINK_MOVED;
    } else {
-      if(o->k==K_PATCH){ O_patch[i]=i+1; fl|= offs0>0?EV_PATCH_BUF: rem0>=0?EV_PATCH_REM: EV_PATCH_VAL; }
+      if(o->k==K_PATCH){ O_patch[i]=i+1; fl|= offs0>0?EV_PATCH_BUF: rem0>=0?EV_PATCH_REM: EV_PATCH_VAL; if(offs0==0&&rem0<0&&ext0>0) fl|=EV_PATCH_FF; }
       enc_call(e,o);
    }
    if(counting) MC_INC(c_trans);
@@ -310,6 +310,9 @@ static int step(ec_enc *e,const Op *o,int i){
 
 /* ------------------------------------------------------------------ verification of a complete sequence H[0..n) */
 static Op EFF[MAXD];
+/* decode-side failure signature; sequences in which patch_initial_bits ran while the first stream byte (0xFF) was still
+   counted in ext (offs==0, rem==-1, ext>0) get one narrowly scoped signature of their own */
+static const char *dsig(char *buf,size_t n,const char *what,int kind,int last){ if(O_flags[last]&EV_PATCH_FF) snprintf(buf,n,"decode_mismatch_after_patch_initial_bits:first_byte_0xff_still_in_ext"); else snprintf(buf,n,"%s:%s",what,KN[kind]); return buf; }
 static int verify(const ec_enc *cur,int n){
    ec_enc e=*cur; uint32_t S=e.storage; unsigned char *fb; int tell_end,i,used_raw; const Op *eff=H;
    ec_dec d; rcref r;
@@ -364,13 +367,13 @@ static int verify(const ec_enc *cur,int n){
       case K_BITS: got=ec_dec_bits(&d,o->b); rgot=rcref_bits(&r,o->b); exp=o->a; bad=got!=exp; rbad=rgot!=exp; break;
       default: continue;   /* patch / shrink have no decoder counterpart */
       }
-      if(bad){ snprintf(sig,sizeof sig,"decoded_value_differs:%s",KN[o->k]); setfail(sig,"step %d %s: decoder returned %u, encoded %u%s | %s | stream=%s",i,opstr(o,0),got,exp,(o->k==K_ENC||o->k==K_BIN)?" (fs outside [fl,fh))":"",seqstr(n),mc_hex(fb,S<48?S:48)); return -1; }
-      if((uint32_t)ec_tell(&d)!=O_tell[i]){ snprintf(sig,sizeof sig,"tell_differs_enc_dec:%s",KN[o->k]); setfail(sig,"step %d %s: ec_tell enc %u dec %d | %s | stream=%s",i,opstr(o,0),O_tell[i],ec_tell(&d),seqstr(n),mc_hex(fb,S<48?S:48)); return -1; }
-      if(ec_tell_frac(&d)!=O_frac[i]){ snprintf(sig,sizeof sig,"tell_frac_differs_enc_dec:%s",KN[o->k]); setfail(sig,"step %d %s: ec_tell_frac enc %u dec %u | %s | stream=%s",i,opstr(o,0),O_frac[i],ec_tell_frac(&d),seqstr(n),mc_hex(fb,S<48?S:48)); return -1; }
-      if(d.rng!=O_rng[i]){ snprintf(sig,sizeof sig,"rng_differs_enc_dec:%s",KN[o->k]); setfail(sig,"step %d %s: rng enc %u dec %u | %s | stream=%s",i,opstr(o,0),O_rng[i],d.rng,seqstr(n),mc_hex(fb,S<48?S:48)); return -1; }
-      if(rbad){ snprintf(sig,sizeof sig,"rfc_decoder_value_differs:%s",KN[o->k]); setfail(sig,"step %d %s: RFC-text decoder returned %u, encoded %u | %s | stream=%s",i,opstr(o,0),rgot,exp,seqstr(n),mc_hex(fb,S<48?S:48)); return -1; }
-      if(r.broken){ snprintf(sig,sizeof sig,"rfc_decoder_invariant:%s",KN[o->k]); setfail(sig,"step %d %s: RFC-text decoder left its 32-bit domain | %s | stream=%s",i,opstr(o,0),seqstr(n),mc_hex(fb,S<48?S:48)); return -1; }
-      if(rcref_tell(&r)!=(int64_t)O_tell[i]||rcref_tell_frac(&r)!=(int64_t)O_frac[i]||r.rng!=O_rng[i]){ snprintf(sig,sizeof sig,"rfc_decoder_tell_or_rng_differs:%s",KN[o->k]);
+      if(bad){ dsig(sig,sizeof sig,"decoded_value_differs",o->k,n-1); setfail(sig,"step %d %s: decoder returned %u, encoded %u%s | %s | stream=%s",i,opstr(o,0),got,exp,(o->k==K_ENC||o->k==K_BIN)?" (fs outside [fl,fh))":"",seqstr(n),mc_hex(fb,S<48?S:48)); return -1; }
+      if((uint32_t)ec_tell(&d)!=O_tell[i]){ dsig(sig,sizeof sig,"tell_differs_enc_dec",o->k,n-1); setfail(sig,"step %d %s: ec_tell enc %u dec %d | %s | stream=%s",i,opstr(o,0),O_tell[i],ec_tell(&d),seqstr(n),mc_hex(fb,S<48?S:48)); return -1; }
+      if(ec_tell_frac(&d)!=O_frac[i]){ dsig(sig,sizeof sig,"tell_frac_differs_enc_dec",o->k,n-1); setfail(sig,"step %d %s: ec_tell_frac enc %u dec %u | %s | stream=%s",i,opstr(o,0),O_frac[i],ec_tell_frac(&d),seqstr(n),mc_hex(fb,S<48?S:48)); return -1; }
+      if(d.rng!=O_rng[i]){ dsig(sig,sizeof sig,"rng_differs_enc_dec",o->k,n-1); setfail(sig,"step %d %s: rng enc %u dec %u | %s | stream=%s",i,opstr(o,0),O_rng[i],d.rng,seqstr(n),mc_hex(fb,S<48?S:48)); return -1; }
+      if(rbad){ dsig(sig,sizeof sig,"rfc_decoder_value_differs",o->k,n-1); setfail(sig,"step %d %s: RFC-text decoder returned %u, encoded %u | %s | stream=%s",i,opstr(o,0),rgot,exp,seqstr(n),mc_hex(fb,S<48?S:48)); return -1; }
+      if(r.broken){ dsig(sig,sizeof sig,"rfc_decoder_invariant",o->k,n-1); setfail(sig,"step %d %s: RFC-text decoder left its 32-bit domain | %s | stream=%s",i,opstr(o,0),seqstr(n),mc_hex(fb,S<48?S:48)); return -1; }
+      if(rcref_tell(&r)!=(int64_t)O_tell[i]||rcref_tell_frac(&r)!=(int64_t)O_frac[i]||r.rng!=O_rng[i]){ dsig(sig,sizeof sig,"rfc_decoder_tell_or_rng_differs",o->k,n-1);
          setfail(sig,"step %d %s: enc tell/frac/rng %u/%u/%u, RFC-text decoder %ld/%ld/%lu | %s | stream=%s",i,opstr(o,0),O_tell[i],O_frac[i],O_rng[i],(long)rcref_tell(&r),(long)rcref_tell_frac(&r),(unsigned long)r.rng,seqstr(n),mc_hex(fb,S<48?S:48)); return -1; }
    }
    if(d.error||r.corrupt){ setfail("decoder_error_flag_on_valid_stream","dec.error=%d rfc.corrupt=%d | %s",d.error,r.corrupt,seqstr(n)); return -1; }
@@ -505,7 +508,7 @@ static void e2_item(long it,void *ctx){
 }
 
 /* ------------------------------------------------------------------ E3 */
-static const int NBT[4]={33,9,1033,32009};
+static const int NBT[4]={33,41,1033,32009};   /* nbits_total is 33 + 8*renormalisations + raw bits */
 static void e3_item(long it,void *ctx){
    /* it: ilog class 24..32 (x low-bit fill 0/1) for the table part; chunks of 2^20 rng values for the full sweep */
    int full=*(int*)ctx; ec_ctx x; memset(&x,0,sizeof x);
